@@ -151,6 +151,8 @@ def run(tier):
         for c in bad_model[:5]:
             R.broken.append("correspondence model/implementation fails on " + repr(c.to_json())[:600]
                             + " model says: " + P.diagnose("C14_model", c))
+    from harness import probes
+    probes.discriminator_probe(R, {'coerce'})
     R.hist["model_mismatches"] = len(bad_model)
     return R.finish(
         rule="types of the C01 grammar x data whose primitive leaves are replaced by numeric strings, boolean words in "
